@@ -57,6 +57,13 @@ func (g *FuncGen) execStmt(s ast.Stmt, st *State) Flow {
 						continue
 					}
 					s := sortOf(o.Type())
+					if isLibStruct(o.Type()) {
+						// "var b bytes.Buffer": a value of a library struct type is an object of its own; &b and copies of b
+						// denote it (the models of the library's methods work on such handles)
+						h := g.allocOpaque(st, o.Type())
+						st.vars[o] = Val{h.T, o.Type(), s}
+						continue
+					}
 					st.vars[o] = Val{zeroOf(s), o.Type(), s}
 				}
 			} else if len(vs.Values) == len(vs.Names) {
